@@ -35,8 +35,10 @@ pub fn hypot_stub(x: f64, y: f64) -> f64 {
 const PI: f64 = core::f64::consts::PI;
 
 /// all field values of a decoded type-19 report (type invariant: the sub-structure matches st)
-pub fn obl_velocity_calc(s: &mut Src, ctx: &mut Ctx) {
-    let st = s.u8() & 7;
+pub fn obl_velocity_calc(s: &mut Src, ctx: &mut Ctx, st_fixed: u8) {
+    // the subtype is a concrete parameter (0..=7), enumerated by the driver: keeps the scale and the
+    // variant concrete for CBMC
+    let st = st_fixed & 7;
     let ew_dir = s.bool();
     let ns_dir = s.bool();
     let ew_raw = s.u16() & 0x3ff;
